@@ -128,6 +128,23 @@ def check(case):
                     info['top_unused'] = True
                 require(int(m.n_clusters) == nt, 'un-curated: n_clusters != n_templates',
                         key='unc-n-clusters', observed=int(m.n_clusters), expected=nt)
+                # manual clustering starts here: the in-memory assignment is edited in place and
+                # the map computed afterwards describes the edited vector (templates untouched)
+                if case.get('edits'):
+                    sc2 = list(sc)
+                    for i, c in case['edits']:
+                        m.spike_clusters[i] = c
+                        sc2[i] = c
+                    mp, nan2 = must_return('get_merge_map (after in-place edit)', m.get_merge_map)
+                    exp2 = {c: sorted(set(t for t, cc in zip(st_, sc2) if cc == c))
+                            for c in range(max(sc2) + 1)}
+                    got2 = {int(k): sorted(int(x) for x in v) for k, v in mp.items()}
+                    require(got2 == exp2, 'merge map after an in-place edit of spike_clusters '
+                            '(dataset that was not curated before)', key='merge-map-after-edit',
+                            observed=got2, expected=exp2)
+                    same_array('spike_templates after an in-place edit of spike_clusters',
+                               m.spike_templates, T.spike_templates, key='templates-after-edit')
+                    info['edited'] = True
                 return info
             cmax = max(sc)
             exp_map = {c: sorted(set(t for t, cc in zip(st_, sc) if cc == c))
